@@ -209,6 +209,9 @@ class Path:
         return "Path(%s, %r, |pc|=%d)" % (self.kind, self.value, len(self.pc))
 
 
+STATE_SNAPSHOT = [None]     # loader installs (snapshot(), restore(snap)) for module-level containers of the code under test
+
+
 def explore(fn, base=(), maxpaths=20000, base_key=None, on_path=None):
     """Enumerate every feasible path of fn() (re-execution DFS). Returns list of Path.
     kind is 'ret' or 'exc'. Exceeding maxpaths is a hard error (Unsupported), never a truncation."""
@@ -218,9 +221,15 @@ def explore(fn, base=(), maxpaths=20000, base_key=None, on_path=None):
     global _PICK_EPOCH
     _PICK_EPOCH += 1
     epoch = _PICK_EPOCH
+    _inner_snap = STATE_SNAPSHOT[0][0]() if (outer is not None and STATE_SNAPSHOT[0] is not None) else None
     try:
         while work:
             sched = work.pop()
+            if outer is None:            # top-level exploration: every path starts from the pristine module state
+                for hook in PRE_PATH_HOOKS:
+                    hook()
+            elif _inner_snap is not None:   # summary: every callee path starts from the state at the call
+                STATE_SNAPSHOT[0][1](_inner_snap)
             c = Ctx(sched, base, epoch, base_key)
             Ctx.cur = c
             try:
@@ -241,6 +250,8 @@ def explore(fn, base=(), maxpaths=20000, base_key=None, on_path=None):
                     raise Unsupported("path cap %d exceeded" % maxpaths)
     finally:
         Ctx.cur = outer
+        if _inner_snap is not None:
+            STATE_SNAPSHOT[0][1](_inner_snap)
         for k in [k for k in _PICK_CACHE if k[0] == epoch]:
             del _PICK_CACHE[k]
         for k in [k for k in _SUMMARY_CACHE if k[0] == epoch]:
@@ -248,6 +259,7 @@ def explore(fn, base=(), maxpaths=20000, base_key=None, on_path=None):
     return out
 
 
+PRE_PATH_HOOKS = []      # run before every path execution (the loader restores module-level containers here)
 _PICK_EPOCH = 0
 _PICK_CACHE = {}
 
@@ -1343,7 +1355,10 @@ class SymStr:
                 if isinstance(c, HexChar) and all(not b.atoms for b in c.nib):
                     n //= len(c.alphabet()) // 2
         if n > 64:
-            raise Unsupported("hash of SymStr with too many possible values (symbolic dict/set key)")
+            # too many values to fork over: every such key gets the same hash, so dictionary operations fall back to
+            # == (which is symbolic and forks); loads / membership tests go through symx_getitem / symx_in, which
+            # compare against every key and therefore also find concrete keys that may be equal
+            return 0x5EED
         return builtins.hash(concretize_str(self))
 
     def __bool__(self):
@@ -1887,18 +1902,26 @@ def symx_getitem(obj, key):
         raise Unsupported("subscript of %s with SymInt" % type(obj).__name__)
     if isinstance(key, SymBool):
         return obj[bool(key)]
-    if isinstance(key, (SymStr,)) and isinstance(obj, dict):
-        for k in obj:
-            if isinstance(k, str):
+    if isinstance(obj, dict) and (isinstance(key, SymStr) or
+                                  (isinstance(key, str) and any(isinstance(k, SymStr) for k in obj))):
+        for k in list(obj):
+            if isinstance(k, (str, SymStr)):
                 r = key == k
                 if r is True or (not isinstance(r, bool) and bool(r)):
-                    return obj[k]
+                    return dict.__getitem__(obj, k) if isinstance(k, str) else _dict_value_by_identity(obj, k)
         raise KeyError(key)
     if isinstance(key, list) and any(isinstance(k, SymBool) for k in key):
         key = [bool(k) if isinstance(k, SymBool) else k for k in key]
     if isinstance(key, slice) and any(isinstance(v, SymInt) for v in (key.start, key.stop, key.step)):
         key = slice(*[concretize(v) if isinstance(v, SymInt) else v for v in (key.start, key.stop, key.step)])
     return obj[key]
+
+
+def _dict_value_by_identity(d, key_obj):
+    for k, v in d.items():
+        if k is key_obj:
+            return v
+    raise KeyError(key_obj)
 
 
 def symx_get(obj, *args):
@@ -1913,6 +1936,12 @@ def symx_get(obj, *args):
 
 def symx_in(x, container):
     """x in container"""
+    if isinstance(x, str) and isinstance(container, dict) and any(isinstance(k, SymStr) for k in container):
+        for k in list(container):
+            r = x == k if not isinstance(k, SymStr) else k == x
+            if r is True or (not isinstance(r, bool) and bool(r)):
+                return True
+        return False
     if is_sym(x) and isinstance(container, (set, frozenset, dict)) or \
             (is_sym(x) and type(container).__name__ == "dict_keys"):
         for k in container:
